@@ -16,8 +16,9 @@ RULE = ("A = U diag(s) V^H with oracle-made unitary factors: shapes 1..5 (quick)
         "iterates; ||AXA-A|| non-increasing along the K-step run; tolerance-stopped runs (tol 1e-4, 1e-6, 1e-8) within tol/s_min^2 of "
         "A^+; Penrose residuals small once the model has converged. distinct = (input digest, solver, gamma, budget); non-trivial = "
         "rank >= 1")
-ASSUMPTIONS = ["trajectory bound c*eps*(k+2)*n*kappa^2*||model_k|| with c = 1e3 (the factor kappa^2 covers the transient amplification "
-               "prod(1+gamma(1-t)) <= 1/t_0 of rounding errors)",
+ASSUMPTIONS = ["trajectory bound c*eps*(k+2)*n*kappa*||model_k|| with c = 30 (calibrated: the iteration is self-correcting, the measured "
+               "deviation is <= 0.025*eps*(k+2)*n*kappa over kappa = 10..1e6, gamma in {1,.5}, tracked and untracked runs); the third-order "
+               "solver (3T - 3TAT + T(AT)^2, cancellation) deviates like 0.012*eps*(k+2)*n*kappa^2 and is judged with kappa^2",
                "for rank-deficient input rounding noise in the null space is multiplied by (1+gamma) (resp. 3) per step: deviations "
                "within the envelope c*eps*rho^k are attributed to the open finding F-C03-b, larger ones are new violations"]
 SHARDS = {"quick": 12, "thorough": 16}
@@ -28,6 +29,7 @@ MUST_REACH = ["ns:left_update", "ns:right_update", "ns:stop_residuals", "ns:stop
               "class:rank_deficient", "class:zero_matrix", "stopped_before_cap"]
 
 C = 1e3
+CT = 30.0      # trajectory constant: measured worst deviation / (eps (k+2) n kappa ||model||) = 0.025 over kappa 10..1e6
 EPS = refq.EPS
 GAMMAS = [1.0, 0.9, 0.5, 0.25, 0.1]
 
@@ -67,11 +69,15 @@ def cases(tier, seed):
     for k in range(60 if tier == "quick" else 500):
         out.append({"kind": "stop", "cls": "stop", "idx": idx, "seed": seed, "maxd": maxd})
         idx += 1
+    # long runs on ill-conditioned full-rank input (enough iterations for the smallest singular directions to converge)
+    for k in range(12 if tier == "quick" else 96):
+        out.append({"kind": "longrun", "cls": "longrun_ill_conditioned", "idx": idx, "seed": seed, "maxd": maxd})
+        idx += 1
     return out
 
 
 def run_case(spec, ctx, R):
-    {"traj": _traj, "stop": _stop}[spec["kind"]](spec, ctx, R)
+    {"traj": _traj, "stop": _stop, "longrun": _longrun}[spec["kind"]](spec, ctx, R)
 
 
 # ---- spectral model -----------------------------------------------------------------------
@@ -208,7 +214,7 @@ def _traj(spec, ctx, R):
             ctx.distinct(A, site, k, nontrivial=r >= 1)
             mk = Xm[k]
             nm = max(refq.fro(mk), 1e-300 if r else 0.0)
-            tb = C * EPS * (k + 2) * max(m, n) * kap * kap * nm + 1e-300
+            tb = CT * EPS * (k + 2) * max(m, n) * (kap * kap if third else kap) * nm + 1e-300
             dev = refq.fro(Xk - mk)
             ctx.check("trajectory", dev, tb, site=site, tags=tg(k, dev, tb, max(nm, refq.fro(Xm[0]))),
                       detail={"k": k, "shape": [m, n], "rank": r, "t_k": ts[k]})
@@ -313,3 +319,68 @@ def _stop(spec, ctx, R):
     if spec["idx"] % 17 == 0:
         ctx.sample({"kind": "stop", "shape": [m, n], "svals": s, "tol": tol, "solver": which, "gamma": gamma, "iterations": iters,
                     "distance_to_pinv": d, "bound": b})
+
+
+def _longrun(spec, ctx, R):
+    """Ill-conditioned full-rank input, budgets up to full convergence, tracked and untracked runs, selected budgets."""
+    S = R.solver
+    rng = gen.rng_for(spec["seed"], "c03long", spec["idx"])
+    m, n = (int(x) for x in rng.integers(2, spec["maxd"] + 1, size=2))
+    r = min(m, n)
+    kap = float([1e4, 1e6, 1e5, 1e3][spec["idx"] % 4])
+    s = np.geomspace(kap, 1.0, r) * float(rng.choice([1e-3, 1.0, 1e3]))
+    if r == 1:
+        kap = 1.0
+    A, U, V = refq.with_singular_values(rng, m, n, s)
+    nrmA = refq.fro(A)
+    gamma = float(rng.choice([1.0, 0.5]))
+    third = spec["idx"] % 5 == 4
+    rate = 1.58 if third else (1.0 if gamma == 1.0 else 0.58)
+    K = int(np.ceil(np.log2(kap * kap * r) / rate)) + 10
+    Xm, ts = model_iterates(U, V, s, gamma, K, third=third, norm2=nrmA * nrmA)
+    ks = sorted(set([1, 2, K // 4, K // 2, (3 * K) // 4, K - 1, K]))
+    Ap = refq.matmul(V[:, :r] * (1.0 / s)[None, :], refq.herm(U[:, :r]))
+    ctx.distinct(A, "longrun", gamma, third)
+    for track in ((True,) if third else (True, False)):
+        site = ("HigherOrderNewtonSchulzPseudoinverse" if third else f"NewtonSchulzPseudoinverse[gamma={gamma},residuals={track}]") + ":longrun"
+        tags = [f"kappa={kap:g}"]
+
+        def mk(k):
+            return S.HigherOrderNewtonSchulzPseudoinverse(max_iter=k, tol=0.0) if third else \
+                S.NewtonSchulzPseudoinverse(gamma=gamma, max_iter=k, tol=0.0, compute_residuals=track)
+        try:
+            XK, resK, covK = mk(K).compute(A)
+        except Exception as e:
+            ctx.check("unexpected_exception", False, site=site, tags=tags, detail={"exception": repr(e)})
+            continue
+        if not _finite_all(XK, resK, None if third else covK):
+            ctx.check("finite", False, site=site, tags=tags)
+            continue
+        for k in ks:
+            Xk = XK if k == K else mk(k).compute(A)[0]
+            nm = refq.fro(Xm[k])
+            dev = refq.fro(Xk - Xm[k])
+            ctx.check("trajectory", dev, CT * EPS * (k + 2) * max(m, n) * (kap * kap if third else kap) * nm + 1e-300, site=site, tags=tags,
+                      detail={"k": k, "K": K, "shape": [m, n], "kappa": kap})
+            if not third and k < K:
+                I = refq.eye(n if m >= n else m)
+                cv = refq.fro((refq.matmul(Xk, A) if m >= n else refq.matmul(A, Xk)) - I)
+                cb = C * EPS * max(m, n) * (nrmA * refq.fro(Xk) + 1.0) + 1e-300
+                ctx.check("covariance_truthful", abs(float(covK[k]) - cv), cb, site=site, tags=tags, detail={"k": k, "reported": covK[k], "oracle": cv})
+        if float(np.max(np.abs(ts[K] - 1.0))) <= 1e-9:
+            d = refq.fro(XK - Ap) / refq.fro(Ap)
+            ctx.check("limit_penrose", d, 1e-7 + CT * EPS * (K + 2) * max(m, n) * (kap * kap if third else kap), site=site + ":distance_to_pinv",
+                      tags=tags, detail={"K": K})
+    # stop accuracy on the same matrix (tolerance-stopped run)
+    tol = float(rng.choice([1e-6, 1e-8]))
+    for track in (True, False):
+        sol = S.NewtonSchulzPseudoinverse(gamma=gamma, max_iter=4 * K + 50, tol=tol, compute_residuals=track)
+        X, res, cov = sol.compute(A)
+        if len(cov) >= 4 * K + 50 or not refq.is_finite(X):
+            ctx.skip("stop_accuracy", "did not stop before the cap")
+            continue
+        ctx.hit("stopped_before_cap")
+        tg = [f"kappa={kap:g}"] + ([] if track else ["cov_only_stop"] + (["cov_only_stop&s_min>1"] if s[-1] > 1.0 else []))
+        ctx.check("stop_accuracy", refq.fro(X - Ap), tol / (s[-1] ** 2) * (1 + 1e-6) + CT * EPS * (len(cov) + 2) * max(m, n) * kap * refq.fro(Ap),
+                  site=f"NewtonSchulzPseudoinverse[residuals={track}]:stop", tags=tg,
+                  detail={"shape": [m, n], "kappa": kap, "tol": tol, "gamma": gamma, "iterations": len(cov)})
